@@ -233,4 +233,53 @@ def run():
                 c.violation('oracle', '%s from JSON: the last string is not reproduced' % kind, [l])
             else:
                 c.nontriv(('fit', kind, need, bl))
+    # ---- the JSON path and the from-parts path write the same value: a filter built from parts, and the same parts written as a
+    # JSON text and parsed, are byte-for-byte the same (lists with repeated elements - adjacent or apart - included)
+    import json as _json
+    pl, pj, pm = [], [], []
+    rb = lambda n_: bytes(rng.randrange(256) for _ in range(n_))
+    def rep(xs):
+        xs = list(xs)
+        if xs and rng.random() < 0.6:
+            i = rng.randrange(len(xs))
+            xs.insert(rng.choice([i, i + 1, len(xs), 0]), xs[i])
+            if rng.random() < 0.3:
+                xs.insert(i, xs[i])
+        return xs
+    for _ in range(120 if c.tier == 'quick' else 1500):
+        letters = rng.sample('abcdeptEPZ', rng.choice([0, 1, 2]))
+        tg = [[l.encode()] + rep([rng.choice([b'v', b'w' * 64, b'', rb(4).hex().encode()]) for _ in range(rng.choice([1, 2, 3]))]) for l in letters]
+        f = dict(ids=rep([rb(32) for _ in range(rng.choice([0, 1, 2, 3]))]), authors=rep([rb(32) for _ in range(rng.choice([0, 1, 2]))]),
+                 kinds=rep([rng.choice([0, 1, 65535, 30000]) for _ in range(rng.choice([0, 1, 3]))]), tags=tg,
+                 since=rng.choice([None, 5]), until=rng.choice([None, 9]), limit=rng.choice([None, 1]))
+        need_f = 32 + 32 * len(f['ids']) + 32 * len(f['authors']) + 2 * len(f['kinds']) + tags_size(tg)
+        o = {}
+        if f['ids']: o['ids'] = [x.hex() for x in f['ids']]
+        if f['authors']: o['authors'] = [x.hex() for x in f['authors']]
+        if f['kinds']: o['kinds'] = f['kinds']
+        for k in ('since', 'until', 'limit'):
+            if f[k] is not None: o[k] = f[k]
+        for t in tg:
+            o['#' + t[0].decode()] = [x.decode() for x in t[1:]]
+        pl.append('FLP %s %d %d' % (gen.fl_tok(f), need_f + 16, rng.randrange(1, 1 << 40)))
+        pj.append('FLJ %s %d %d' % (hx(_json.dumps(o).encode()), need_f + 16, rng.randrange(1, 1 << 40)))
+        pm.append((f, need_f))
+    wp, mp = c.run_both(pl)
+    wq, mq = c.run_both(pj)
+    c.evaluations += len(pl) + len(pj)
+    for lp, lj, (f, need_f), a, am, b, bm in zip(pl, pj, pm, wp, mp, wq, mq):
+        if a.split(' ')[:3] != am.split(' ')[:3]:
+            c.violation('corr', 'filter from parts: impl %s model %s' % (a[:50], am[:50]), [lp], found=False)
+        if b != bm:
+            c.violation('corr', 'filter from JSON: impl %s model %s' % (b[:50], bm[:50]), [lj], found=False)
+        ta, tb = a.split(' '), b.split(' ')
+        if ta[0] != 'ok' or tb[0] != 'ok':
+            c.violation('oracle', 'the same filter parts: from_parts %s, from_json %s' % (a[:30], b[:30]), [lp, lj])
+            continue
+        va, vb = ta[2][:2 * int(ta[1])], tb[3][:2 * int(tb[2])]
+        if va != vb:
+            c.violation('oracle', 'the JSON path and the from-parts path build different filters from the same parts (%d and %d bytes, %d expected)' % (
+                len(vb) // 2, len(va) // 2, need_f), [lp, lj])
+        else:
+            c.nontriv(('json=parts', lp[:200]))
     c.finish()
